@@ -1,17 +1,373 @@
+/* C13: string operations equal their textbook meaning, stay inside their buffers, terminate,
+ * and return every internal buffer to the string allocator exactly once with its request size.
+ * Oracles below are written from the property text, independently of the implementation. */
+#ifndef MAXL
+#define MAXL 3
+#endif
+#ifndef ENV_MALLOC_CAP
+#define ENV_MALLOC_CAP 64
+#endif
 #include "env.c"
 #include "translated.h"
-#define MAXL 3
-static void in_str(uint8_t* b, const char* nm) { (void)nm; }
-HARNESS(harness_strstr) {
-  h_init();
-  IN_ARR_U8(a, MAXL + 1); IN_ARR_U8(b, MAXL + 1);
-  a[MAXL] = 0; b[MAXL] = 0;
-  int64_t r = (int64_t)h_StrStr(a, b);
-  /* textbook: smallest i such that b is a prefix of a+i */
-  uint64_t la = 0, lb = 0; while (a[la]) la++; while (b[lb]) lb++;
-  int64_t want = -1;
-  for (uint64_t i = 0; i + lb <= la && want < 0; i++) { int ok = 1; for (uint64_t j = 0; j < lb; j++) if (a[i + j] != b[j]) ok = 0; if (ok) want = (int64_t)i; }
-  OBSERVE(r);
-  CHECK(r == want, "StrStr equals textbook first occurrence");
-  WITNESS("strstr end");
+
+#define OUTCAP 48
+#define STR(n) IN_ARR_U8(n, MAXL + 1); n[MAXL] = 0
+#define NPOS (~(uint64_t)0)
+
+/* ---- allocator ledger: a header in front of every buffer records the requested size */
+#define HDR 16
+static uint64_t led_allocs, led_frees, led_errors;
+uint8_t* h_rec_alloc(uint64_t size) {
+  CHECK(size < ((uint64_t)1 << 32), "string buffer request is sane (no wrapped size)");
+  ENV_ENGINE_ASSERT(size <= ENV_MALLOC_CAP - HDR, "string buffer larger than the harness heap capacity (bound too small)");
+  uint8_t* p = env_malloc(size + HDR);
+  ((uint64_t*)p)[0] = 0xA110CA7EDULL; ((uint64_t*)p)[1] = size;
+  led_allocs++;
+  return p + HDR;
 }
+void h_rec_free(uint8_t* q, uint64_t size) {
+  uint8_t* p = q - HDR;
+  if (((uint64_t*)p)[0] != 0xA110CA7EDULL) led_errors |= 1;     /* not a live buffer of this allocator */
+  if (((uint64_t*)p)[1] != size) led_errors |= 2;               /* returned with a different size */
+  ((uint64_t*)p)[0] = 0xDEAD;
+  led_frees++;
+  env_free(p);
+}
+#define LEDGER_OK() do { CHECK(led_errors == 0, "every buffer is returned with the size it was requested with"); \
+                         CHECK(led_allocs == led_frees, "every buffer is returned to the string allocator exactly once"); \
+                         CHECK(led_allocs > 0, "operation used the string allocator"); } while (0)
+
+/* ---- textbook helpers */
+static uint64_t t_len(const uint8_t* s) { uint64_t n = 0; while (s[n]) n++; return n; }
+static int t_occurs_at(const uint8_t* a, uint64_t la, const uint8_t* b, uint64_t lb, uint64_t i) {
+  if (i + lb > la) return 0;
+  for (uint64_t j = 0; j < lb; j++) if (a[i + j] != b[j]) return 0;
+  return 1;
+}
+static int64_t t_find(const uint8_t* a, const uint8_t* b, uint64_t from) {
+  uint64_t la = t_len(a), lb = t_len(b);
+  for (uint64_t i = from; i + lb <= la; i++) if (t_occurs_at(a, la, b, lb, i)) return (int64_t)i;
+  return -1;
+}
+static int t_sign(int64_t v) { return v < 0 ? -1 : v > 0 ? 1 : 0; }
+static int t_cmp(const uint8_t* a, const uint8_t* b) { uint64_t i = 0; while (a[i] && a[i] == b[i]) i++; return t_sign((int)a[i] - (int)b[i]); }
+static int t_eq(const uint8_t* a, const uint8_t* b) { return t_cmp(a, b) == 0; }
+static uint8_t t_lower(uint8_t c) { return (c >= 'A' && c <= 'Z') ? (uint8_t)(c + 32) : c; }
+static int t_out_is(const uint8_t* out, uint64_t n, const uint8_t* want, uint64_t wn) {
+  if (n != wn) return 0;
+  for (uint64_t i = 0; i < wn; i++) if (out[i] != want[i]) return 0;
+  return out[wn] == 0;
+}
+
+/* =========================================================== primitives */
+HARNESS(harness_strstr) {
+  h_init(); STR(a); STR(b);
+  int64_t r = (int64_t)h_StrStr(a, b);
+  OBSERVE(r);
+  CHECK(r == t_find(a, b, 0), "StrStr is the first occurrence or NULL");
+  WITNESS("end");
+}
+HARNESS(harness_strcmp_len) {
+  h_init(); STR(a); STR(b);
+  int32_t r = (int32_t)h_StrCmp(a, b);
+  uint64_t n = h_StrLen(a);
+  OBSERVE(r); OBSERVE(n);
+  CHECK(t_sign(r) == t_cmp(a, b), "StrCmp orders like unsigned-byte lexicographic compare");
+  CHECK(n == t_len(a), "StrLen");
+  WITNESS("end");
+}
+HARNESS(harness_strncmp) {
+  h_init(); STR(a); STR(b); IN_U64(n);
+  int32_t r = (int32_t)h_StrNCmp(a, b, n);
+  OBSERVE(r);
+  int want = 0;
+  for (uint64_t i = 0; i < n && i <= MAXL; i++) { if (a[i] != b[i]) { want = t_sign((int)a[i] - (int)b[i]); break; } if (!a[i]) break; }
+  CHECK(t_sign(r) == want, "StrNCmp compares at most n bytes");
+  WITNESS("end");
+}
+HARNESS(harness_strncpy) {
+  h_init(); STR(a); IN_U64(n);
+  IN_U8(fill);
+  uint8_t d[MAXL + 2];
+  for (int i = 0; i < MAXL + 2; i++) d[i] = fill;
+  ASSUME(n <= MAXL + 2);                      /* precondition: destination has n bytes */
+  int64_t r = (int64_t)h_StrNCpy(d, a, n);
+  CHECK(r == 0, "StrNCpy returns destination");
+  uint64_t la = t_len(a);
+  for (uint64_t i = 0; i < MAXL + 2; i++) {
+    OBSERVE(d[i]);
+    if (i < n && i <= la) CHECK(d[i] == a[i], "StrNCpy copies up to n bytes including the terminator");
+    else CHECK(d[i] == fill, "StrNCpy writes nothing past min(n, len+1) (no padding)");
+  }
+  WITNESS("end");
+}
+HARNESS(harness_memcmp) {
+  h_init(); IN_ARR_U8(a, MAXL + 1); IN_ARR_U8(b, MAXL + 1); IN_U64(n);
+  ASSUME(n <= MAXL + 1);
+  int32_t r = (int32_t)h_MemCmp(a, b, n);
+  OBSERVE(r);
+  int want = 0;
+  for (uint64_t i = 0; i < n; i++) if (a[i] != b[i]) { want = t_sign((int)a[i] - (int)b[i]); break; }
+  CHECK(t_sign(r) == want, "MemCmp");
+  WITNESS("end");
+}
+HARNESS(harness_atou_atoi) {
+  h_init();
+  IN_ARR_U8(a, 5); a[4] = 0;
+  uint32_t u = h_AtoU(a);
+  int32_t v = (int32_t)h_AtoI(a);
+  OBSERVE(u); OBSERVE(v);
+  uint64_t i = 0;
+  while (a[i] == ' ' || (a[i] > 8 && a[i] < 14)) i++;
+  uint64_t j = i; uint32_t wu = 0;
+  while (a[j] >= '0' && a[j] <= '9') { wu = wu * 10 + (uint32_t)(a[j] - '0'); j++; }
+  CHECK(u == wu, "AtoU: optional white space then decimal digits");
+  int neg = a[i] == '-';
+  if (a[i] == '-' || a[i] == '+') i++;
+  int32_t wi = 0;
+  while (a[i] >= '0' && a[i] <= '9') { wi = wi * 10 + (a[i] - '0'); i++; }
+  CHECK(v == (neg ? -wi : wi), "AtoI: optional white space, sign, decimal digits");
+  int32_t lc = (int32_t)h_ToLower(a[0]);
+  CHECK(lc == t_lower(a[0]), "ToLower maps only A-Z");
+  WITNESS("end");
+}
+
+/* =========================================================== class operations */
+HARNESS(harness_ctor_copy) {
+  h_init(); STR(a); STR(b);
+  uint8_t out[OUTCAP];
+  uint64_t n = h_ctor(a, out, OUTCAP);
+  CHECK(t_out_is(out, n, a, t_len(a)), "construct from C string copies it");
+  n = h_copy_assign(a, b, out, OUTCAP);
+  CHECK(t_out_is(out, n, a, t_len(a)), "copy construction / assignment / self assignment keep the value");
+  n = h_ctor(0, out, OUTCAP);
+  CHECK(n == 0 && out[0] == 0, "construct from NULL gives the empty string");
+  uint64_t se = h_size_empty(a);
+  CHECK(se == t_len(a) * 2 + (t_len(a) == 0), "size / isEmpty");
+  LEDGER_OK();
+  WITNESS("end");
+}
+HARNESS(harness_repeat) {
+  h_init(); STR(a); IN_U64(k);
+  ASSUME(k <= 3);
+  uint8_t out[OUTCAP];
+  uint64_t n = h_repeat(a, k, out, OUTCAP);
+  uint64_t la = t_len(a);
+  OBSERVE(n);
+  CHECK(n == la * k, "repeat length");
+  for (uint64_t i = 0; i < la * k && i < OUTCAP; i++) CHECK(out[i] == a[i % la], "repeat content");
+  LEDGER_OK();
+  WITNESS("end");
+}
+HARNESS(harness_concat_append) {
+  h_init(); STR(a); STR(b); IN_BOOL(via);
+  uint8_t out[OUTCAP], out2[OUTCAP];
+  uint64_t n = h_concat(a, b, out, OUTCAP);
+  uint64_t m = h_append(a, b, via, out2, OUTCAP);
+  uint64_t la = t_len(a), lb = t_len(b);
+  CHECK(n == la + lb && m == la + lb, "concatenation length");
+  for (uint64_t i = 0; i < la + lb; i++) { uint8_t w = i < la ? a[i] : b[i - la]; CHECK(out[i] == w && out2[i] == w, "concatenation content"); }
+  OBSERVE_STR(out);
+  LEDGER_OK();
+  WITNESS("end");
+}
+HARNESS(harness_compare_ops) {
+  h_init(); STR(a); STR(b);
+  uint32_t e = h_equal(a, b);
+  CHECK(e == (t_eq(a, b) ? 1u : 2u), "== and != are complementary and mean byte equality");
+  uint8_t la[MAXL + 1], lb[MAXL + 1];
+  for (int i = 0; i <= MAXL; i++) { la[i] = t_lower(a[i]); lb[i] = t_lower(b[i]); }
+  CHECK((h_equalsNoCase(a, b) != 0) == t_eq(la, lb), "equalsNoCase");
+  CHECK((h_contains(a, b) != 0) == (t_find(a, b, 0) >= 0), "contains");
+  CHECK((h_containsNoCase(a, b) != 0) == (t_find(la, lb, 0) >= 0), "containsNoCase");
+  uint64_t na = t_len(a), nb = t_len(b);
+  CHECK((h_startsWith(a, b) != 0) == t_occurs_at(a, na, b, nb, 0), "startsWith");
+  CHECK((h_endsWith(a, b) != 0) == (nb <= na && t_occurs_at(a, na, b, nb, na - nb)), "endsWith");
+  OBSERVE(e);
+  LEDGER_OK();
+  WITNESS("end");
+}
+HARNESS(harness_count) {
+  h_init(); STR(a); STR(b);
+  uint64_t c = h_count(a, b);
+  uint64_t la = t_len(a), lb = t_len(b), want = 0;
+  for (uint64_t i = 0; i < la; i++) if (t_occurs_at(a, la, b, lb, i)) want++;
+  OBSERVE(c);
+  CHECK(c == want, "count = number of positions at which the substring occurs");
+  LEDGER_OK();
+  WITNESS("end");
+}
+HARNESS(harness_split) {
+  /* textbook claim for single-character delimiters (pieces keep their delimiter; the pieces
+   * concatenate to the original); any delimiter: memory-safe, terminates, allocator balanced */
+  h_init(); STR(a); STR(d);
+  uint8_t out[OUTCAP]; uint64_t n = 0;
+  IN_U64(which);
+  uint64_t len = h_split(a, d, which, out, OUTCAP, (uint8_t*)&n);
+  OBSERVE(n); OBSERVE(len);
+  if (t_len(d) == 1) {
+    uint64_t la = t_len(a), pieces = 0, start = 0, wstart = 0, wend = 0; int found = 0;
+    for (uint64_t i = 0; i < la; i++) if (a[i] == d[0]) { if (pieces == which) { wstart = start; wend = i + 1; found = 1; } pieces++; start = i + 1; }
+    if (start < la || la == 0) { if (pieces == which) { wstart = start; wend = la; found = 1; } pieces++; }   /* the empty string is one empty piece */
+    CHECK(n == pieces, "split: number of pieces");
+    if (found) CHECK(t_out_is(out, len, a + wstart, wend - wstart), "split: piece content (delimiter kept at the end of each piece)");
+    else CHECK(len == 0, "split: index past the end yields the empty string");
+  }
+  LEDGER_OK();
+  WITNESS("end");
+}
+HARNESS(harness_replace_char) {
+  h_init(); STR(a); IN_U8(f); IN_U8(t);
+  uint8_t out[OUTCAP];
+  uint64_t n = h_replace_char(a, f, t, out, OUTCAP);
+  uint64_t la = t_len(a);
+  if (f != 0 && t != 0) {
+    CHECK(n == la, "replace(char,char) keeps the length");
+    for (uint64_t i = 0; i < la; i++) CHECK(out[i] == (a[i] == f ? t : a[i]), "replace(char,char) content");
+  }
+  LEDGER_OK();
+  WITNESS("end");
+}
+static uint64_t t_replace(const uint8_t* a, const uint8_t* f, const uint8_t* t, uint8_t* w) {
+  /* left-to-right, non-overlapping; an empty pattern replaces nothing */
+  uint64_t la = t_len(a), lf = t_len(f), lt = t_len(t), j = 0, i = 0;
+  while (i < la) {
+    if (lf > 0 && t_occurs_at(a, la, f, lf, i)) { for (uint64_t k = 0; k < lt; k++) w[j++] = t[k]; i += lf; }
+    else w[j++] = a[i++];
+  }
+  w[j] = 0;
+  return j;
+}
+HARNESS(harness_replace) {
+  h_init(); STR(a); STR(f); STR(t);
+  uint8_t out[OUTCAP], want[OUTCAP];
+  uint64_t n = h_replace(a, f, t, out, OUTCAP);
+  uint64_t wn = t_replace(a, f, t, want);
+  OBSERVE(n); OBSERVE_STR(out);
+  CHECK(t_out_is(out, n, want, wn), "replace(from,to) is left-to-right non-overlapping replacement");
+  LEDGER_OK();
+  WITNESS("end");
+}
+HARNESS(harness_replace_twice) {
+  /* sequences of operations on the same object: buffers of intermediate values are handed back */
+  h_init(); STR(a); IN_U8(f1); IN_U8(f2); STR(t);
+  ASSUME(f1 != 0 && f2 != 0);
+  uint8_t p1[2] = {f1, 0}, p2[2] = {f2, 0};
+  uint8_t out[OUTCAP], w1[OUTCAP], w2[OUTCAP];
+  uint64_t n = h_replace_twice(a, p1, t, p2, t, out, OUTCAP);
+  t_replace(a, p1, t, w1);
+  uint64_t wn = t_replace(w1, p2, t, w2);
+  CHECK(t_out_is(out, n, w2, wn), "two replacements in sequence");
+  LEDGER_OK();
+  WITNESS("end");
+}
+HARNESS(harness_lower) {
+  h_init(); STR(a);
+  uint8_t out[OUTCAP];
+  uint64_t n = h_lowerCase(a, out, OUTCAP);
+  uint64_t la = t_len(a);
+  CHECK(n == la, "lowerCase length");
+  for (uint64_t i = 0; i < la; i++) CHECK(out[i] == t_lower(a[i]), "lowerCase content");
+  LEDGER_OK();
+  WITNESS("end");
+}
+HARNESS(harness_printable) {
+  h_init(); STR(a);
+  uint8_t out[OUTCAP];
+  uint64_t la = t_len(a);
+  uint64_t n = h_printable(a, out, OUTCAP);
+  OBSERVE_STR(out);
+  static const char* esc = "abtnvfr";
+  static const char* hex = "0123456789ABCDEF";
+  uint64_t j = 0;
+  for (uint64_t i = 0; i < la; i++) {
+    uint8_t c = a[i];
+    if (c >= 7 && c <= 13) { CHECK(out[j] == '\\' && out[j + 1] == (uint8_t)esc[c - 7], "printable: short escape"); j += 2; }
+    else if (c < 32 || c == 127) { CHECK(out[j] == '\\' && out[j + 1] == 'x' && out[j + 2] == (uint8_t)hex[c >> 4] && out[j + 3] == (uint8_t)hex[c & 15], "printable: hex escape of a control byte"); j += 4; }
+    else if (c >= 128) {
+      /* plain char may be signed: a byte >= 0x80 is either passed through or hex-escaped with ITS value */
+      if (out[j] == c) j += 1;
+      else { CHECK(out[j] == '\\' && out[j + 1] == 'x' && out[j + 2] == (uint8_t)hex[c >> 4] && out[j + 3] == (uint8_t)hex[c & 15], "printable: a byte >= 0x80 is shown as itself or as its own hex escape"); j += 4; }
+    }
+    else { CHECK(out[j] == c, "printable: printable bytes unchanged"); j += 1; }
+  }
+  CHECK(n == j && out[j] == 0, "printable length");
+  LEDGER_OK();
+  WITNESS("end");
+}
+HARNESS(harness_substring) {
+  h_init(); STR(a); IN_U64(b); IN_U64(amt);
+  uint8_t out[OUTCAP];
+  uint64_t n = h_subString2(a, b, amt, out, OUTCAP);
+  uint64_t la = t_len(a);
+  uint64_t wb = b < la ? b : la, wl = la - wb; if (amt < wl) wl = amt;
+  OBSERVE(n);
+  CHECK(t_out_is(out, n, a + wb, wl), "subString(begin, amount) = bytes [begin, begin+amount) clipped to the string");
+  n = h_subString1(a, b, out, OUTCAP);
+  CHECK(t_out_is(out, n, a + wb, la - wb), "subString(begin) = suffix from begin (empty when out of range)");
+  LEDGER_OK();
+  WITNESS("end");
+}
+HARNESS(harness_find_at) {
+  h_init(); STR(a); IN_U8(ch); IN_U64(from);
+  uint64_t la = t_len(a);
+  uint64_t r = h_find(a, ch), r2 = h_findFrom(a, from, ch);
+  uint64_t w = NPOS, w2 = NPOS;
+  for (uint64_t i = 0; i < la; i++) if (a[i] == ch) { w = i; break; }
+  for (uint64_t i = from; i < la; i++) if (a[i] == ch) { w2 = i; break; }
+  OBSERVE(r); OBSERVE(r2);
+  CHECK(r == w, "find(ch): first index or npos");
+  CHECK(r2 == w2, "findFrom(pos, ch): first index >= pos or npos");
+  IN_U64(pos); ASSUME(pos <= la);              /* at(): documented precondition pos <= size() */
+  CHECK((uint8_t)h_at(a, pos) == a[pos], "at(pos)");
+  LEDGER_OK();
+  WITNESS("end");
+}
+HARNESS(harness_fromtill) {
+  h_init(); STR(a); IN_U8(c1); IN_U8(c2);
+  ASSUME(c1 != 0 && c2 != 0);
+  uint8_t out[OUTCAP];
+  uint64_t n = h_subStringFromTill(a, c1, c2, out, OUTCAP);
+  uint64_t la = t_len(a), s = NPOS, e = la;
+  for (uint64_t i = 0; i < la; i++) if (a[i] == c1) { s = i; break; }
+  if (s == NPOS) CHECK(n == 0, "subStringFromTill: start char absent -> empty");
+  else {
+    for (uint64_t i = s; i < la; i++) if (a[i] == c2) { e = i; break; }
+    CHECK(t_out_is(out, n, a + s, e - s), "subStringFromTill: from first start char up to (excluding) the next end char");
+  }
+  LEDGER_OK();
+  WITNESS("end");
+}
+HARNESS(harness_copytobuffer) {
+  h_init(); STR(a); IN_U64(size); IN_U8(fill);
+  ASSUME(size <= MAXL + 3);
+  uint8_t buf[MAXL + 3];
+  for (int i = 0; i < MAXL + 3; i++) buf[i] = fill;
+  h_copyToBuffer(a, buf, size);
+  uint64_t la = t_len(a);
+  uint64_t k = size == 0 ? 0 : (size - 1 < la ? size - 1 : la);
+  for (uint64_t i = 0; i < MAXL + 3; i++) {
+    if (size == 0) CHECK(buf[i] == fill, "copyToBuffer with size 0 writes nothing");
+    else if (i < k) CHECK(buf[i] == a[i], "copyToBuffer copies a prefix");
+    else if (i == k) CHECK(buf[i] == 0, "copyToBuffer terminates inside the buffer");
+    else CHECK(buf[i] == fill, "copyToBuffer writes nothing behind the terminator");
+  }
+  h_copyToBuffer(a, 0, size);
+  LEDGER_OK();
+  WITNESS("end");
+}
+HARNESS(harness_pad) {
+  h_init(); STR(a); STR(b); IN_U8(ch);
+  ASSUME(ch != 0);
+  uint8_t o1[OUTCAP], o2[OUTCAP];
+  uint64_t n1 = h_pad(a, b, ch, o1, o2, OUTCAP);
+  uint64_t la = t_len(a), lb = t_len(b), m = la > lb ? la : lb;
+  CHECK(n1 == m && t_len(o2) == m, "padStringsToSameLength: both have the longer length");
+  for (uint64_t i = 0; i < m; i++) {
+    CHECK(o1[i] == (i < m - la ? ch : a[i - (m - la)]), "pad: first string left-padded");
+    CHECK(o2[i] == (i < m - lb ? ch : b[i - (m - lb)]), "pad: second string left-padded");
+  }
+  LEDGER_OK();
+  WITNESS("end");
+}
+
